@@ -439,6 +439,54 @@ pub fn c12_history(cfg: &CardCfg, nops: usize, seed: u64, prop: &str, rep: &mut 
         rep.violate(v12("C12.read", "read after mark_card_uninit", "re-initialisation", format!("read of block 0 after re-initialisation gave {:?} [{}]", r.map(|x| x.map_err(|e| format!("{:?}", e))), cfg.describe()), case("reinit")));
     }
     drain_c14(&rig, cfg, "re-initialisation", rep);
+    // ---- the card is exchanged for another one (other kind, other capacity) under the same driver ----
+    {
+        let kind2 = match (cfg.kind, rng.below(2)) {
+            (Kind::Sdhc, 0) => Kind::V1Sdsc,
+            (Kind::Sdhc, _) => Kind::V2Sdsc,
+            (Kind::V1Sdsc, 0) => Kind::Sdhc,
+            (Kind::V1Sdsc, _) => Kind::V2Sdsc,
+            (Kind::V2Sdsc, 0) => Kind::Sdhc,
+            (Kind::V2Sdsc, _) => if rng.chance(1, 2) { Kind::V1Sdsc } else { Kind::V2Sdsc },
+        };
+        let csd2 = if kind2 == Kind::Sdhc { build_csd_v2(*rng.pick(&[0x3FFu32, 0x7FFF, 0x1_DFFF, 7])) } else { build_csd_v1(*rng.pick(&[0x3FFu32, 0xEFF, 0x123]), *rng.pick(&[2u32, 5, 7]), *rng.pick(&[9u32, 10])) };
+        if csd2 != cfg.csd && csd_capacity_blocks(&csd2) >= 8 {
+            let cfg2 = CardCfg { kind: kind2, csd: csd2, seed: cfg.seed ^ 0x5A5A, ..cfg.clone() };
+            let mut c2 = Card::new(kind2, csd2, cfg2.seed);
+            c2.max_ncr = cfg.max_ncr;
+            c2.max_access = cfg.max_access;
+            c2.max_busy = cfg.max_busy;
+            c2.acmd41_reps = cfg.acmd41_reps;
+            c2.expect_crc = cfg.crc;
+            c2.set_sleepy(cfg.sleepy);
+            rig.nblocks = c2.nblocks;
+            rig.shadow.clear();
+            rig.bus.borrow_mut().card = c2;
+            rig.sd.mark_card_uninit();
+            let want2 = csd_capacity_blocks(&csd2);
+            let kt = rig.call(B_INIT, |sd| sd.get_card_type());
+            let nb = rig.call(B_BASE, |sd| sd.num_blocks());
+            let nby = rig.call(B_BASE, |sd| sd.num_bytes());
+            let last = (want2 - 1) as u32;
+            let mut one = [Block::new()];
+            let r = rig.call(B_BASE + B_PER_BLOCK, |sd| sd.read(&mut one, BlockIdx(last)).map(|_| ()));
+            rep.evaluations += 4;
+            rep.count("card_exchanges", 1);
+            let kind_ok = matches!(&kt, Ok(Some(t)) if *t == kind_name(kind2));
+            let cap_ok = matches!((&nb, &nby), (Ok(Ok(b)), Ok(Ok(by))) if b.0 as u64 == want2 && *by == want2 * 512);
+            let read_ok = matches!(r, Ok(Ok(()))) && one[0].contents == rig.expected(last);
+            if !kind_ok || !cap_ok || !read_ok {
+                rep.violate(v12(
+                    if !kind_ok { "C12.kind" } else if !cap_ok { "C12.capacity" } else { "C12.read" },
+                    "after a card exchange",
+                    &format!("{:?} -> {:?}", cfg.kind, kind2),
+                    format!("card exchanged for [{}] and the driver marked uninitialised: kind {:?}, blocks {:?}, bytes {:?} (the new CSD encodes {} blocks), read of its last block correct: {} [first card: {}]", cfg2.describe(), kt, nb.map(|x| x.map(|y| y.0)), nby, want2, read_ok, cfg.describe()),
+                    case("card exchange"),
+                ));
+            }
+            drain_c14(&rig, &cfg2, "after a card exchange", rep);
+        }
+    }
     rep.count("card_histories", 1);
     rep.count("bus_bytes", rig.bus.borrow().card.total_bytes);
     rep.count("command_frames_checked", rig.bus.borrow().card.frames.len() as u64);
@@ -579,6 +627,8 @@ enum FaultSpec {
     Cmd13(u8, u8),
     SpiError(u64),
     Card(Misbehave),
+    /// n-th frame of a command (ACMD | 0x80) answered with this R1 instead of being executed
+    R1(u8, u32, u8),
 }
 
 /// Fresh card, initialise fault-free (unless the op IS the initialisation), apply fault, run op, judge.
@@ -606,6 +656,7 @@ fn c13_case(cfg: &CardCfg, op: OpK, fault: &FaultSpec, which_block: u32, label: 
             FaultSpec::Cmd13(x, y) => b.card.inject = Inject { cmd13: Some((c13n, *x, *y)), ..Default::default() },
             FaultSpec::SpiError(t) => b.fail_transaction = Some(*t),
             FaultSpec::Card(m) => b.card.misbehave = m.clone(),
+            FaultSpec::R1(c, n, val) => b.card.inject = Inject { r1_override: Some((*c, *n, *val)), ..Default::default() },
         }
     }
     let o = do_op(&mut rig, op, idx, 0xABCD);
@@ -687,6 +738,34 @@ fn c13_case(cfg: &CardCfg, op: OpK, fault: &FaultSpec, which_block: u32, label: 
             if o.ok && rig.bus.borrow().spi_failed {
                 rep.violate(v13("C13.ok-spi-error", &call, "transaction error ignored", format!("{:?} returned Ok although SPI transaction #{} of the call failed [{}]", op, t, cfg.describe()), case()));
                 return None;
+            }
+        }
+        FaultSpec::R1(c, _, val) => {
+            let cname = if c & 0x80 != 0 { format!("ACMD{}", c & 0x3F) } else { format!("CMD{}", c) };
+            if o.ok && o.corrupted {
+                if is_read && !read_correct(&rig) {
+                    rep.violate(v13("C13.ok-corrupt", &call, "command refused by the card", format!("{:?} returned Ok with wrong data although the card answered {} with R1 {:#04x} and did not execute it [{}]", op, cname, val, cfg.describe()), case()));
+                    return None;
+                }
+                if is_write && !mem_matches_payload(&rig) {
+                    rep.violate(v13("C13.ok-rejected", &call, "command refused by the card", format!("{:?} returned Ok although the card answered {} with R1 {:#04x} and never stored the data [{}]", op, cname, val, cfg.describe()), case()));
+                    return None;
+                }
+                // the call went through all the same: whatever protection was asked for must still
+                // be in force - a corrupted block in the next read must not be accepted
+                if cfg.crc {
+                    if op == OpK::Init {
+                        // (nothing read yet)
+                    }
+                    let sent = rig.bus.borrow().card.data_blocks_sent;
+                    rig.bus.borrow_mut().card.inject = Inject { flip_bits: vec![(sent, vec![777])], ..Default::default() };
+                    let p = do_op(&mut rig, OpK::Read1, idx, 0);
+                    rep.count("crc_still_enforced_probes", 1);
+                    if p.ok && p.corrupted && p.data[0] != rig.expected(idx) {
+                        rep.violate(v13("C13.ok-corrupt", &call, "CRC checking lost after a refused command", format!("after {:?} went through although the card answered {} with R1 {:#04x}, a read with a flipped data bit returned Ok with the wrong data (CRC was requested) [{}]", op, cname, val, cfg.describe()), case()));
+                        return None;
+                    }
+                }
             }
         }
         FaultSpec::Card(m) => {
@@ -859,6 +938,26 @@ pub fn run_c13_cases(ctx: &Ctx, c14_only: bool) -> Report {
                 continue;
             }
             let (t, b) = (o.transactions, o.bytes);
+            // (g) every command of the fault-free call answered abnormally instead of being executed
+            if !c14_only {
+                let call_id = rig.bus.borrow().card.call_id;
+                let mut seen: Vec<(u8, u32)> = Vec::new();
+                let mut counts: HashMap<u8, u32> = HashMap::new();
+                for f in rig.bus.borrow().card.frames.iter().filter(|f| f.call == call_id) {
+                    let key = f.cmd | if f.app { 0x80 } else { 0 };
+                    let n = counts.entry(key).or_insert(0);
+                    if *n < 2 {
+                        seen.push((key, *n));
+                    }
+                    *n += 1;
+                }
+                for (key, nth) in seen {
+                    for val in [0x05u8, 0x04, 0x09, 0x08, 0x40, 0x20, 0x10, 0x02, 0x7F, 0x01, 0x00] {
+                        let cname = if key & 0x80 != 0 { format!("ACMD{}", key & 0x3F) } else { format!("CMD{}", key) };
+                        work.push((ci, op, FaultSpec::R1(key, nth, val), 0, format!("answers {} #{} with R1 {:#04x} without executing it", cname, nth, val)));
+                    }
+                }
+            }
             let tstep = if c14_only { (t / 3).max(1) } else { 1 };
             let mut k = 0;
             while k < t {
